@@ -75,6 +75,8 @@ def base_bytes(src):
         data = build.short_sample_records(data)[0]
     elif isinstance(tr, list) and tr[0] == "short_chunk":
         data = build.short_array_chunk(data, tr[1], tr[2])[0]
+        if len(tr) > 3:
+            data = build.set_chnk(data, tr[3])[0]
     return data
 
 
@@ -467,7 +469,36 @@ def run_sampler_record_grid(ctx, part, parts):
                     if v_ is None:
                         raise
                     ctx.check(False, v_.sub_oracle, "%r %r: %s" % (fields, case["edits"][0][3:], v_.detail), key=v_.key, recipe={"tag": "sampler_record_grid", "case": case})
-    ctx.label("sampler_record_grid")
+    # pairs of envelope edits on an otherwise untouched instrument: one envelope switched off / emptied, another given
+    # values that the pre-envelope instrument fields could not hold
+    names = ["volume", "panning", "pitch", "fx0", "fx1", "fx2", "fx3"]
+    plain = {"type": "Sampler", "common": {"name": "Sampler"}, "sets": [], "options": [], "cmid": [], "payload": {"samples": [], "envelopes": {}, "fields": {}}}
+    k = 0
+    for a in names:
+        for b in names:
+            if a == b:
+                continue
+            k += 1
+            if k % parts != part:
+                continue
+            lo = 0 if b in ("volume", "fx0", "fx1", "fx2", "fx3") else -0x4000
+            env = {"points": [[0, lo + 100], [64, lo + 4321], [200, lo + 7], [300, lo + 0x3FFF]], "enable": True, "sustain": True, "loop": False, "ctl_index": 3, "gain_pct": 50, "velocity": 1, "sustain_point": 2, "loop_start_point": 0, "loop_end_point": 3}
+            for first in (["s_env", a, "enable", False], ["s_env", a, "enable", True], ["s_env_whole", a, dict(env, points=[], enable=False, sustain=False, sustain_point=0, loop_end_point=0)]):
+                case = {"src": "synth", "spec": plain, "edits": [["mod", -1, "pay"] + first, ["mod", -1, "pay", "s_env_whole", b, env]]}
+                ctx.case()
+                try:
+                    labels, changed = run_case(ctx, case)
+                    ctx.mark_nontrivial(case)
+                except PropertyViolation as v_:
+                    ctx.check(False, v_.sub_oracle, v_.detail, key=v_.key, recipe={"tag": "sampler_record_grid", "case": case})
+                except Exception as ex:  # noqa: BLE001
+                    from vlib.harness import as_violation
+
+                    v_ = as_violation(ex, "C06", "edit")
+                    if v_ is None:
+                        raise
+                    ctx.check(False, v_.sub_oracle, "%r: %s" % ([e_[3:5] for e_ in case["edits"]], v_.detail), key=v_.key, recipe={"tag": "sampler_record_grid", "case": case})
+    ctx.label("sampler_record_grid", "envelope_edit_pairs")
     ctx.sample({"src": "sampler_record_grid", "grid": grid, "part": [part, parts]})
 
 
